@@ -484,20 +484,36 @@ func (this *BWT) inverseBiPSIv2(src, dst []byte, count int) (uint, uint, error) 
 	nbTasks := min(int(this.jobs), chunks)
 	jobsPerTask, _ := internal.ComputeJobsPerTask(make([]uint, nbTasks), uint(chunks), uint(nbTasks))
 	var wg sync.WaitGroup
+	errs := make([]error, nbTasks)
 
 	for j, c := 0, 0; j < nbTasks; j++ {
 		wg.Add(1)
 		start := c * ckSize
 
-		go func(dst []byte, buckets []int, fastBits []uint16, indexes []uint, total, start, ckSize, firstChunk, lastChunk int) {
+		go func(res *error, dst []byte, buckets []int, fastBits []uint16, indexes []uint, total, start, ckSize, firstChunk, lastChunk int) {
+			defer wg.Done()
+
+			// Corrupted data (EG. an invalid primary index) must not crash the process:
+			// a panic in this goroutine cannot be recovered by the caller.
+			defer func() {
+				if r := recover(); r != nil {
+					*res = errors.New("Invalid input: corrupted BWT data")
+				}
+			}()
+
 			this.inverseBiPSIv2Task(dst, buckets, fastBits, indexes, total, start, ckSize, firstChunk, lastChunk)
-			wg.Done()
-		}(dst, buckets[:], fastBits, this.primaryIndexes[:], count, start, ckSize, c, c+int(jobsPerTask[j]))
+		}(&errs[j], dst, buckets[:], fastBits, this.primaryIndexes[:], count, start, ckSize, c, c+int(jobsPerTask[j]))
 
 		c += int(jobsPerTask[j])
 	}
 
 	wg.Wait()
+
+	for _, err := range errs {
+		if err != nil {
+			return 0, 0, err
+		}
+	}
 
 	dst[count-1] = byte(lastc)
 	return uint(count), uint(count), nil
